@@ -10,7 +10,7 @@ import os
 import re
 import sys
 import time
-from collections import defaultdict, deque
+from collections import Counter, defaultdict, deque
 
 VERIF = os.path.dirname(os.path.dirname(os.path.abspath(__file__)))
 REPO = os.environ.get("MAMBA_REPO", "/repo")
@@ -850,6 +850,12 @@ def canonicalise_params(syn):
                 if re.match(rx, ty):
                     by_class[c].append(i_["pat"]["name"])
         ren = {}
+        # a few functions whose parameters the models name by position
+        pos_names = {"generate::ast::to_py": ("core", "ind")}.get(f["qual"])
+        if pos_names:
+            for i_, want_ in zip(f["sig"]["inputs"], pos_names):
+                if i_.get("pat", {}).get("k") == "pident" and i_["pat"]["name"] != want_:
+                    ren[i_["pat"]["name"]] = want_
         for c, names in by_class.items():
             if len(names) != 1:
                 continue
@@ -1163,6 +1169,19 @@ def _alpha_form(fn):
     return h.hexdigest()[:24], names, carriers
 
 
+def _local_names_key(syn, f):
+    """the qualified name; for a name that several functions share (the impls of one trait method for several type arguments) with the
+    trait and the types of the signature appended"""
+    cnt = syn.__dict__.get("_qual_count")
+    if cnt is None:
+        cnt = Counter(g.get("qual") for g in syn.fns if g.get("qual") and g.get("body"))
+        syn.__dict__["_qual_count"] = cnt
+    q = f.get("qual") or ""
+    if cnt.get(q, 0) <= 1:
+        return q
+    return q + "|" + re.sub(r"\s+", "", str(f.get("impl_trait") or "")) + "|" + _sig_key(f)
+
+
 def restore_local_names(syn):
     """-> {fn qual: {current name: pinned name}} for the functions that differ from the pinned tree by the names of their locals only"""
     if os.environ.get("VERIF_NO_NORMALISE"):
@@ -1173,7 +1192,7 @@ def restore_local_names(syn):
         return {}
     done = {}
     for f in syn.fns:
-        ent = table.get(f.get("qual") or "")
+        ent = table.get(_local_names_key(syn, f))
         if not ent or not f.get("body"):
             continue
         hsh, names, carriers = _alpha_form(f)
@@ -1913,6 +1932,13 @@ class Scopes:
 
     def _bind_pat(self, p, env, kind, init):
         env = dict(env)
+        # `let (a, b) = (x, y);` binds a to x and b to y
+        p0, i0 = p, strip(init) if isinstance(init, dict) else init
+        if kind == "let" and isinstance(p0, dict) and p0.get("k") == "ptuple" and isinstance(i0, dict) and i0.get("k") == "tuple" and \
+                len(p0.get("elems", [])) == len(i0.get("elems", [])) and all(isinstance(x, dict) for x in p0["elems"]):
+            for pe, ie in zip(p0["elems"], i0["elems"]):
+                env = self._bind_pat(pe, env, kind, ie)
+            return env
         for n in walk(p):
             if n.get("k") == "pident":
                 # an uppercase single identifier pattern is a constant/unit variant, not a binding
